@@ -4,6 +4,8 @@ import (
 	"fmt"
 	"go/token"
 	"go/types"
+	"sort"
+	"strings"
 
 	"golang.org/x/tools/go/ssa"
 )
@@ -19,6 +21,7 @@ func checkC07(w *World, r *Report) {
 	r.NotDecided = []string{"that delete merges nodes back so that all histories ending in the same route set yield behaviourally equal trees (the heart of the property; a statement about tree shapes over histories)", "insertion-order independence of splits"}
 	r.Assumptions = []string{"the matcher trusts childKeys order (binary search above 50 children) and the two index fields"}
 	checkNodeConstruction(w, r, "C07.1")
+	checkC07MergeGuards(w, r)
 	p := newProto(w)
 	checkC04PublicationAs(w, r, p, w.Method("Txn", "Commit"), "C07.3")
 	o := newOwn(w)
@@ -264,4 +267,148 @@ func copySourceOf(ms *ssa.MakeSlice) ssa.Value {
 		}
 	}
 	return nil
+}
+
+// checkC07MergeGuards: delete must merge a single remaining child back into its parent under exactly the documented
+// conditions; an extra condition leaves un-merged shapes behind (routing then depends on the history), a missing one
+// merges across a leaf, a root or the host/path boundary.
+func checkC07MergeGuards(w *World, r *Report) {
+	ru := r.Rule("C07.2", "merge-back guards of tXn.remove: the three places that fold a node into its single remaining child do so under exactly these conditions — (a) the removed node has exactly one child; (b) the parent is left with exactly one edge, is not a leaf and is not the method root; (c) the parent is left with no edge, is not a leaf nor the root, and the grand-parent is then left with exactly one edge, is not a leaf, is not the root, and that edge does not start the path part ('/') of a hostname route", 3)
+	remove := w.Method("tXn", "remove")
+	fromRef := w.Func("newNodeFromRef")
+	recreate := w.Func("recreateParentEdge")
+	o := newOwn(w)
+	isMergeCtor := func(c *ssa.Call) bool {
+		if c.Call.StaticCallee() != fromRef {
+			return false
+		}
+		k, ok := c.Call.Args[0].(*ssa.Call)
+		return ok && isFuncNamed(calleeObj(k), "fmt", "Sprintf")
+	}
+	// merge sites inside remove: direct constructor calls, or calls of a helper that contains one
+	helpers := map[*ssa.Function]bool{}
+	for _, fn := range w.FoxFuncs() {
+		if fn == remove {
+			continue
+		}
+		eachInstr(fn, func(in ssa.Instruction) {
+			if c, ok := in.(*ssa.Call); ok && isMergeCtor(c) {
+				helpers[fn] = true
+			}
+		})
+	}
+	var sites []*ssa.Call
+	eachInstr(remove, func(in ssa.Instruction) {
+		if c, ok := in.(*ssa.Call); ok && (isMergeCtor(c) || helpers[c.Call.StaticCallee()]) {
+			sites = append(sites, c)
+		}
+	})
+	resField := func(v ssa.Value) string {
+		// result.p / result.pp / result.matched (loads of fields of the search result)
+		if _, f, ok := loadedField(v); ok {
+			return f.Name()
+		}
+		return ""
+	}
+	var describeEdges func(v ssa.Value, depth int) string
+	describeEdges = func(v ssa.Value, depth int) string {
+		if depth > 4 {
+			return "?"
+		}
+		switch x := v.(type) {
+		case *ssa.Call:
+			if x.Call.StaticCallee() == recreate {
+				return "edges(" + resField(x.Call.Args[0]) + ")"
+			}
+		case *ssa.Phi:
+			// the use decides which definition is meant: take the one defined in a block dominating... keep all
+			parts := map[string]bool{}
+			for _, e := range x.Edges {
+				parts[describeEdges(e, depth+1)] = true
+			}
+			if len(parts) == 1 {
+				for k := range parts {
+					return k
+				}
+			}
+			return "edges(?)"
+		case *ssa.UnOp:
+			if b, f, ok := loadedField(x); ok && f.Name() == "children" {
+				return resField(b) + ".children"
+			}
+		}
+		return "?"
+	}
+	classify := func(f Fact) string {
+		neg := map[bool]string{true: "", false: "!"}[f.Val]
+		switch x := f.Cond.(type) {
+		case *ssa.BinOp:
+			if c, ok := x.X.(*ssa.Call); ok {
+				if b, ok := c.Call.Value.(*ssa.Builtin); ok && b.Name() == "len" {
+					if k, ok := constInt(x.Y); ok {
+						return fmt.Sprintf("%slen(%s)%s%d", neg, describeEdges(c.Call.Args[0], 0), x.Op, k)
+					}
+				}
+			}
+			if o.isNodePtr(x.X.Type()) && o.isNodePtr(x.Y.Type()) && x.Op == token.EQL {
+				a, b := resField(x.X), resField(x.Y)
+				if a == "" {
+					a, b = b, a
+				}
+				if a != "" {
+					return neg + a + "==root"
+				}
+			}
+			if k, ok := constInt(x.Y); ok && x.Op == token.LSS && k == 0 {
+				return neg + "index<0"
+			}
+		case *ssa.Call:
+			if callee := x.Call.StaticCallee(); callee != nil {
+				switch callee.Name() {
+				case "isLeaf":
+					return neg + resField(x.Call.Args[0]) + ".isLeaf"
+				case "isExactMatch":
+					return neg + "isExactMatch"
+				case "HasPrefix":
+					if s, ok := constString(x.Call.Args[1]); ok && s == "/" {
+						return neg + "edge0.hasSlashPrefix"
+					}
+				}
+			}
+		}
+		return "other:" + f.String()
+	}
+	preMerge := map[string]bool{"!index<0": true, "isExactMatch": true, "matched.isLeaf": true, "!len(matched.children)>1": true, "!len(matched.children)==1": true}
+	want := map[string][]string{
+		"(a) removed node has one child": {"len(matched.children)==1"},
+		"(b) parent keeps one edge":      {"len(edges(p))==1", "!p.isLeaf", "!p==root"},
+		"(c) grand-parent keeps one edge": {"len(edges(p))==0", "!p.isLeaf", "!p==root", "len(edges(pp))==1", "!pp.isLeaf", "!edge0.hasSlashPrefix", "!pp==root"},
+	}
+	seen := map[string]bool{}
+	for _, c := range sites {
+		var got []string
+		for _, f := range factsAtBlock(c.Block()) {
+			k := classify(f)
+			if preMerge[k] {
+				continue
+			}
+			got = append(got, k)
+		}
+		sort.Strings(got)
+		matched := ""
+		for name, ws := range want {
+			w2 := append([]string(nil), ws...)
+			sort.Strings(w2)
+			if strings.Join(w2, " ") == strings.Join(got, " ") {
+				matched = name
+			}
+		}
+		seen[matched] = true
+		ru.Check("merge in tXn.remove", w.Pos(c.Pos()), "performed under exactly one of the documented guard sets", matched != "", orDefault(matched, "guards: "+strings.Join(got, " && ")))
+	}
+	for name := range want {
+		if !seen[name] {
+			ru.Fail("merge case "+name, w.Pos(remove.Pos()), "the merge case exists", "no merge site is guarded by this set")
+		}
+	}
 }
